@@ -158,4 +158,4 @@ func c07Run(t *testing.T, handle func(entry string, n []uint64, f []string) stri
 }
 
 func c07Ok(toks ...string) string { return "ok " + strings.Join(toks, " ") }
-func c07U(n uint64) string        { return strconv.FormatUint(n, 10) }
+func c07U(n uint64) string      { return strconv.FormatUint(n, 10) }
